@@ -150,6 +150,8 @@ class Region(object):
         if depth not in self.pixeldict:
             self.pixeldict[depth] = set()
         self.pixeldict[depth].update(set(pix))
+        # the cached single-level representation is no longer valid
+        self.demoted = set()
 
     def get_area(self, degrees=True):
         """
@@ -286,6 +288,7 @@ class Region(object):
                     # promote this pixel to self.maxdepth
                     pp = p//4**(d-self.maxdepth)
                     self.pixeldict[self.maxdepth].add(pp)
+            self.demoted = set()
         if renorm:
             self._renorm()
         return
